@@ -352,6 +352,24 @@ def observe(rec, data, model, climate, cycle, flag, months, stage):
         else:
             rec.check(not ok, "anomaly_selected_months_rejects_cycle" + sfx,
                       "cycle %d accepted" % cycle)
+    # shuffled_anomaly(): every node's anomaly series in another temporal
+    # order - and the window keeps exposing what it exposed before
+    if climate and ok_an:
+        pbt.seed_library_rngs(n_t, n_s)
+        ok, sh = rec.call("shuffled_anomaly", data.shuffled_anomaly)
+        if ok:
+            sh = np.asarray(sh, dtype=float)
+            if rec.check(sh.shape == x.shape, "shuffled_anomaly_shape" + sfx,
+                         "%s vs %s" % (sh.shape, x.shape)):
+                base = x if flag else model_anomaly(x, cycle)
+                rec.close(np.sort(sh, axis=0), np.sort(
+                    np.asarray(base, dtype=float), axis=0),
+                    "shuffled_anomaly_is_columnwise_permutation" + sfx,
+                    rtol=1e-9 * scale)
+            ok, o2 = rec.call("observable", data.observable)
+            if ok:
+                rec.equal(np.asarray(o2, dtype=float).reshape(x.shape), x,
+                          "observable_after_shuffled_anomaly" + sfx)
 
 
 # --------------------------------------------------------------- generators
